@@ -52,6 +52,7 @@ type driver struct {
 	readFaults      []fault   // planned read faults not yet observed
 	status          status
 	skipFinalIsOpen bool
+	halfClosed      bool
 	fedMark         int
 	noSettle        bool
 	trace           []string
@@ -218,6 +219,14 @@ func (d *driver) deadlockCrit(opName string, monitorSide bool) func(p *lockPictu
 				}
 			}
 			return "", "", false
+		}
+		if p.stuckRecv {
+			who := "another call"
+			if mine(p.stuckSend) {
+				who = opName
+			}
+			return "C15:deadlock:" + opName + "-close-waits-for-closeSignal-token:" + d.ctx(),
+				fmt.Sprintf("%s never returns: %s is parked inside close() on a receive from closeSignal while holding f.mu; the token it waits for was taken by the read loop (the underlying Close tore the stream down before failing) and only another close(), which needs f.mu, could send one", opName, who), true
 		}
 		if !p.noReceiver(d.scriptIdle()) {
 			return "", "", false
@@ -402,6 +411,9 @@ func (d *driver) doIsOpen() {
 	}
 	got := r.(bool)
 	d.logf("IsOpen -> %v", got)
+	if d.halfClosed {
+		return // between a failed and the finishing Close only "it returns" is required
+	}
 	if got != d.m.Open {
 		d.violate(fmt.Sprintf("C15:IsOpen-%v-while-%s:%s", got, map[bool]string{true: "open", false: "closed"}[d.m.Open], d.ctx()),
 			fmt.Sprintf("IsOpen reports %v while the life-cycle model says open=%v", got, d.m.Open), nil)
@@ -419,12 +431,37 @@ func (d *driver) plannedFault(opName string, idx int) *fault {
 
 func (d *driver) doClose() {
 	_, _, sCloses, _, _, _ := d.st.Snapshot()
+	teardown := d.plannedFault("CloseTeardown", d.st.closeCount()+1)
 	r, ok := d.call("Close", func() interface{} { return d.tr.Close() })
 	if !ok {
 		return
 	}
 	err := asErr(r)
 	d.logf("Close -> %s", errText(err))
+	if d.halfClosed {
+		// the previous Close handed back the underlying transport's error
+		// after the stream was torn down; this one must finish the job
+		d.halfClosed = false
+		if err != nil {
+			d.violate("C15:Close-fails-again-after-failed-underlying-Close", "the first Close returned the underlying transport's error (stream already torn down); the second Close returned "+errText(err)+" instead of closing the transport", nil)
+			return
+		}
+		d.closeProtocol("local")
+		return
+	}
+	if d.m.Open && teardown != nil {
+		if err == nil {
+			// closed in spite of the underlying error: fine, but then completely
+			d.closeProtocol("local")
+			return
+		}
+		// Neither open nor closed for good yet: nothing is asserted about
+		// IsOpen / Open / Request here except that they return; a second
+		// Close must complete the close.
+		d.logf("underlying Close failed after tearing the stream down; a second Close must finish")
+		d.halfClosed = true
+		return
+	}
 	if !d.m.Open {
 		if !isTTE(err, thrift.NOT_OPEN) {
 			d.violate("C15:Close-on-closed-transport:"+d.ctx(), "Close on a closed transport must fail with TTransportException NOT_OPEN, got "+errText(err), nil)
@@ -483,7 +520,7 @@ func (d *driver) awaitCause(kind string, faultMark int) (causeVal, bool) {
 		return got
 	}
 	crit := func(p *lockPicture, _ []gblock) (string, string, bool) {
-		if p.stuckSend != nil && p.noReceiver(d.scriptIdle()) {
+		if p.stuckSend != nil && !p.stuckRecv && p.noReceiver(d.scriptIdle()) {
 			who := "a call"
 			if p.stuckSend.Reader {
 				who = "the read loop"
@@ -1070,7 +1107,7 @@ func (d *driver) observeReadFault() {
 // the subject of a forced schedule of its own), or has been handed a planned
 // fault, which is then accounted for first.
 func (d *driver) syncReader() {
-	for d.m.Open && d.status == stOK && !d.noSettle {
+	for d.m.Open && d.status == stOK && !d.noSettle && !d.halfClosed {
 		hit := false
 		check := func() bool {
 			s := d.st.snap()
@@ -1267,6 +1304,11 @@ func (d *driver) setup() {
 			addFault(&d.st.FailOpen, f.K, e)
 		case "Close":
 			addFault(&d.st.FailClose, f.K, e)
+		case "CloseTeardown":
+			if d.st.teardownFail == nil {
+				d.st.teardownFail = map[int]error{}
+			}
+			d.st.teardownFail[f.K] = e
 		case "Read":
 			addFault(&d.st.FailRead, f.K, e)
 			d.readFaults = append(d.readFaults, f)
@@ -1280,6 +1322,10 @@ func (d *driver) setup() {
 	tr := d.tr
 	d.st.onSession = func() <-chan error { return tr.Closed() }
 	d.ptr = fmt.Sprintf("%p", d.tr)
+	d.st.teardownSettled = func() bool {
+		p := analyse(takeDump(), d.ptr, d.gid)
+		return len(p.readers) == 0 && !p.nascent
+	}
 }
 
 func addFault(m *map[int]error, k int, e error) {
@@ -1298,6 +1344,18 @@ func (d *driver) noSpuriousClose() {
 	select {
 	case v, ok := <-d.ch:
 		d.stash = &causeVal{v, ok}
+		if d.halfClosed {
+			// Close() handed back the underlying transport's error and took
+			// its token back before the woken read loop looked for it: the
+			// read loop has reported the dead stream itself.  Legal (a Close
+			// racing a failure: either cause); everything that follows a close
+			// is checked as usual.
+			d.halfClosed = false
+			d.h.run.Add("failed_Close_then_close_by_read_loop", 1)
+			d.logf("after the failed Close the read loop closed the session itself")
+			d.closeProtocol("race")
+			return
+		}
 		d.violate("C15:spurious-close:"+d.ctx(), fmt.Sprintf("the session was closed (Closed() yielded %s, ok=%v) although no stream failure happened and nobody called Close", errText(v), ok), nil)
 	default:
 	}
